@@ -128,7 +128,7 @@ func runC01(c *Check, a *Analysis) {
 		}
 		registers := false
 		for _, m := range ups {
-			if m.Fn == l.Fn {
+			if p.sameFn(m.Fn, l.Fn) {
 				registers = true
 			}
 		}
@@ -155,7 +155,7 @@ func runC01(c *Check, a *Analysis) {
 		}
 		c.Ob("R-SEQ-LOOKUP", site+"/header-first", p.InstrPos(l.Instr), okH, det)
 		for _, d := range pendingOps(p, "delete") {
-			if d.Fn != l.Fn {
+			if !p.sameFn(d.Fn, l.Fn) {
 				continue
 			}
 			same := p.originsSubset(d.Key, l.Key)
@@ -168,7 +168,7 @@ func runC01(c *Check, a *Analysis) {
 		// at least one delete in the same section as the lookup
 		sec := false
 		for _, d := range pendingOps(p, "delete") {
-			if d.Fn == l.Fn && ls.SameSection(l.Instr, d.Instr, "Conn.mutex") {
+			if p.sameFn(d.Fn, l.Fn) && ls.SameSection(l.Instr, d.Instr, "Conn.mutex") {
 				sec = true
 			}
 		}
@@ -248,7 +248,7 @@ func isGetSeqCall(v ssa.Value) bool {
 
 func isRegisteredKeyOrigin(p *Prog, o ssa.Value, fn *ssa.Function, ups []MapOp) bool {
 	for _, m := range ups {
-		if m.Fn != fn {
+		if !p.sameFn(m.Fn, fn) {
 			continue
 		}
 		for _, k := range p.origins(m.Key) {
